@@ -299,6 +299,20 @@ fn run_lint_case(text: &str) -> String {
     }
 }
 
+/// `duck --lint main` where `main` includes a second file (`@INC` in its text): the verdict, and
+/// for a rejection the reported source and line, are those of the instruction as the library's
+/// `parse_file` tags it (an offending line of the INCLUDED file is reported under that file)
+fn run_lint_include_case(main_text: &str, inc_text: &str) -> String {
+    let path = temp_path();
+    let inc = format!("{}.inc.ds", path);
+    let _g1 = TempFile(path.clone());
+    let _g2 = TempFile(inc.clone());
+    std::fs::write(&inc, inc_text).expect("write temp include");
+    std::fs::write(&path, main_text.replace("@INC", &inc)).expect("write temp script");
+    let obs = run_duck(&["--lint".to_string(), path.clone()], None);
+    if lint_relation(&obs, &path) { "lintinc".to_string() } else { format!("lintinc REL-VIOLATED {}", nomatch(&obs)) }
+}
+
 // ---------------------------------------------------------------- the interactive loop
 
 /// `duck` without arguments reads lines from stdin, runs each as it comes on the SAME context and
@@ -547,6 +561,17 @@ impl Prop for C20Prop {
             out.push(case(cli_req(&["--lint", FILE_ARG], Some(text)), vec!["form:--lint", tag, "fixed"], true));
             out.push(case(format!("lint {}", enc_str(text)), vec!["op:lint", tag, "fixed"], true));
         }
+        // lint across an include: offending line in the included file / in the including file
+        // after the directive / nowhere
+        for (m, i) in [
+            ("echo a\n!include_files @INC\necho b\n", "echo ok\n\n# c\nECHO bad\n"),
+            ("echo a\n!include_files @INC\nECHO late\n", "echo ok\n:lbl x = set 1\n"),
+            ("!include_files @INC\n", "Out = set 1\n"),
+            ("x = set 1\n!include_files @INC\n:L echo\n", "\n\n"),
+            ("echo a\n!include_files @INC\necho b\n", "echo fine\n"),
+        ] {
+            out.push(case(format!("lintinc {} {}", enc_str(m), enc_str(i)), vec!["op:lint", "lint-across-include", "fixed"], true));
+        }
         // the interactive loop: what a crashing line leaves behind (variables, the last-error
         // record, live handles) is what the next line sees
         for t in [
@@ -642,6 +667,7 @@ impl Prop for C20Prop {
             }
             "lint" => run_lint_case(&dec_str(t[1]).expect("text")),
             "repl" => run_repl_case(&dec_str(t[1]).expect("text")),
+            "lintinc" => run_lint_include_case(&dec_str(t[1]).expect("main"), &dec_str(t[2]).expect("inc")),
             _ => "?".to_string(),
         }
     }
